@@ -5,6 +5,7 @@ import (
 	"math"
 	"math/rand"
 	"net/netip"
+	"strings"
 
 	"github.com/cedar-policy/cedar-go/types"
 	"github.com/cedar-policy/cedar-go/x/exp/ast"
@@ -63,9 +64,12 @@ var attrNames = []string{"n", "s", "e", "ss", "r", "opt", "b", "d", "t", "ip", "
 var tagNames = []string{"t1", "t2", ""}
 
 type gen struct {
-	r      *rand.Rand
-	uids   []types.EntityUID
-	maxDep int
+	// avoidKnown: do not draw the values behind the recorded known findings (instants of the first
+	// representable day, IPv4-mapped IPv6 addresses); they are checked where they can be matched precisely
+	avoidKnown bool
+	r          *rand.Rand
+	uids       []types.EntityUID
+	maxDep     int
 }
 
 func newGen(seed int64, maxDepth int) *gen {
@@ -133,13 +137,18 @@ func (g *gen) value(k kind, depth int) types.Value {
 	case kDec:
 		return cwf.DecimalFromRaw(int64(g.long()))
 	case kDt:
-		return types.NewDatetimeFromMillis(int64(g.long()))
+		for {
+			ms := int64(g.long())
+			if !g.avoidKnown || ms >= math.MinInt64+2*86400000 {
+				return types.NewDatetimeFromMillis(ms)
+			}
+		}
 	case kDur:
 		return types.NewDurationFromMillis(int64(g.long()))
 	case kIP:
 		for {
 			if ip, err := types.ParseIPAddr(pick(g, ipLits)); err == nil {
-				if netip.Prefix(ip).Addr().Zone() == "" {
+				if netip.Prefix(ip).Addr().Zone() == "" && !(g.avoidKnown && netip.Prefix(ip).Addr().Is4In6()) {
 					return ip
 				}
 			}
@@ -197,9 +206,9 @@ func (g *gen) env() cwf.Env {
 	return cwf.Env{P: g.uid(), A: g.uid(), R: g.uid(), C: g.attrs(), Store: g.store()}
 }
 
-func val(v types.Value) ast.IsNode { return ast.NodeValue{Value: v} }
+func val(v types.Value) ast.IsNode       { return ast.NodeValue{Value: v} }
 func bin(l, r ast.IsNode) ast.BinaryNode { return ast.BinaryNode{Left: l, Right: r} }
-func strNode(s string) ast.IsNode { return val(types.String(s)) }
+func strNode(s string) ast.IsNode        { return val(types.String(s)) }
 func ext(name string, args ...ast.IsNode) ast.IsNode {
 	return ast.NodeTypeExtensionCall{Name: types.Path(name), Args: args}
 }
@@ -398,7 +407,12 @@ func (g *gen) litArg(lits []string, depth int) ast.IsNode {
 	if g.r.Intn(15) == 0 {
 		return g.expr(kStr, depth)
 	}
-	return strNode(pick(g, lits))
+	for {
+		l := pick(g, lits)
+		if !g.avoidKnown || !strings.HasPrefix(l, "-292275055-05-1") {
+			return strNode(l)
+		}
+	}
 }
 
 func (g *gen) setOf(k kind, depth int) ast.IsNode {
